@@ -161,6 +161,37 @@ func (s *allocState) exec(c *ctx, op string) string {
 		})
 		c.emit(op, res)
 		return res
+	case "afrace": // afrace <k> <rounds>: one block handed out, k callers free it at once: exactly one succeeds
+		if s.a == nil {
+			return ""
+		}
+		k, rounds := atoi(f[1]), atoi(f[2])
+		res := "ok"
+		for r := 0; r < rounds && res == "ok"; r++ {
+			b, err := s.a.Allocate(net.IPNet{})
+			if err != nil {
+				res = "full"
+				break
+			}
+			errs := make([]error, k)
+			fs := make([]func() string, k)
+			for i := range fs {
+				i := i
+				fs[i] = func() string { errs[i] = s.a.Free(b); return "done" }
+			}
+			together(fs)
+			n := 0
+			for _, e := range errs {
+				if e == nil {
+					n++
+				}
+			}
+			if n != 1 {
+				res = fmt.Sprintf("freed %d times round %d: %s", n, r, fmtAllocRes(b, nil)[3:])
+			}
+		}
+		c.emit(op, res)
+		return res
 	case "arace": // arace <ip|-> <ones> <bits> <k> <rounds>: k callers at once with the same hint, again and again
 		if s.a == nil {
 			return ""
